@@ -735,7 +735,14 @@ class VPK:
 
         FileExistsError will be raised if the file is already present.
         """
-        self.new_file(filename, root).write(data, arch_index)
+        info = self.new_file(filename, root)
+        try:
+            info.write(data, arch_index)
+        except BaseException:
+            # Writing failed, don't leave behind an empty file.
+            # noinspection PyProtectedMember
+            del self[info.dir, info._filename, info.ext]
+            raise
 
     def add_folder(self, folder: str, prefix: str = '') -> None:
         """Write all files in a folder to the VPK.
